@@ -32,6 +32,8 @@ for c in range(1, 21):
                    ("_seeded4", "C16", 1): "--features info/docs", ("_seeded4", "C15", 1): "--features info/bit-vec"}.get((rd, cid, n))
         if special:
             demo_cmd = "demo copied to test_suite/tests/seeded_demo_%d.rs; cargo test --offline -p scale-info-test-suite %s --test seeded_demo_%d (the flag is needed for the change to manifest: DEMO_FLAGS of selftest/validate_seed.sh)" % (n, special, n)
+        if (rd, cid, n) == ("_seeded5", "C07", 2):
+            demo_cmd = "demo placed in <repo>/tests/seeded_demo_2.rs (library crate: test_suite always enables `decode`); cargo test --offline -p scale-info --test seeded_demo_2 (DEMO_LIB=1 of selftest/validate_seed.sh)"
         meta = {
             "id": sid, "breaks_property": cid, "title": title,
             "needs_to_manifest": (m.group(1).strip()[:400] if m else "see notes.md"),
